@@ -115,7 +115,10 @@ def mk_case(rng, sched, mode, state, B, k=None, picks=None, spelling=None):
     opts, cde = make_opts(sched, picks)
     return {'sched': sched if rng.random() < 0.85 else sched.upper(), 'mode': mode, 'state': state, 'B': B, 'n': n,
             'sweep': sw, 'kind': rng.choice(sweeps.KINDS_BASIC[:6]), 'batching': batching, 'pre': pre, 'ids': ids,
-            'ids_spelling': spelling or rng.choice(['tuple', 'list']), 'opts': opts, 'cde': cde}
+            'ids_spelling': spelling or rng.choice(['tuple', 'list']), 'opts': opts, 'cde': cde,
+            # which method generates the script, and whether the crop was created with a relative parent directory
+            'entry': rng.choice(['cluster', 'cluster', 'cluster', 'specific'] + (['qsub'] if sched in ('sge', 'pbs') else [])),
+            'relparent': rng.random() < 0.15}
 
 
 def mk_cli(rng, B, k, workers=None):
@@ -330,15 +333,28 @@ def prepare(c, ctx):
     ssw = crops.sorted_sweep(sw)
     p.f = f = sweeps.make_rec(ssw, kind)
     os.environ.pop(fns.LOG_ENV, None)
+    cwd0 = os.getcwd()
+    if c.get('relparent'):
+        os.chdir(os.path.dirname(d))       # (prepare runs on the main thread while no task is running)
+    try:
+        return _prepare(c, ctx, p, d, os.path.basename(d) if c.get('relparent') else d)
+    finally:
+        os.chdir(cwd0)
+
+
+def _prepare(c, ctx, p, d, parent_arg):
+    import xyzpy as xyz
+    sw, kind = c['sweep'], c['kind']
+    f = p.f
     with quiet():
         b = c['batching']
-        crop = xyz.Crop(fn=f, name='t', parent_dir=d, batchsize=b.get('bs'), num_batches=b.get('nb'))
+        crop = xyz.Crop(fn=f, name='t', parent_dir=parent_arg, batchsize=b.get('bs'), num_batches=b.get('nb'))
         if sw['rows'] is not None and not sw['combo_args']:
             crop.sow_cases(sw['case_args'], sweeps.py_cases(sw, 'tuple'), verbosity=0)
         else:
             crop.sow_combos(sweeps.py_combos(sw, 'dict'), cases=sweeps.py_cases(sw, 'dict'), verbosity=0)
         if c['pre']: crop.grow(list(c['pre']), verbosity=0)
-    p.crop, p.loc = crop, crop.location
+    p.crop, p.loc = crop, os.path.abspath(crop.location)
     p.idx, p.sizes = batch_index(crop.location)
     obs = {'B': crop.num_batches, 'before': crops.ls(crop.location)['r'], 'parent_dir': os.path.realpath(d),
            'home': _ENV['home'], 'tasks': []}
@@ -361,7 +377,13 @@ def prepare(c, ctx):
     try:
         with warnings.catch_warnings():
             warnings.simplefilter('ignore')
-            text = crop.gen_cluster_script(c['sched'], batch_ids=ids, mode=c['mode'], **kw)
+            entry = c.get('entry', 'cluster')
+            if entry == 'specific':
+                text = getattr(crop, 'gen_%s_script' % c['sched'].lower())(batch_ids=ids, mode=c['mode'], **kw)
+            elif entry == 'qsub':
+                text = crop.gen_qsub_script(batch_ids=ids, scheduler=c['sched'], mode=c['mode'], **kw)
+            else:
+                text = crop.gen_cluster_script(c['sched'], batch_ids=ids, mode=c['mode'], **kw)
     except Exception as e:
         obs['err'] = type(e).__name__; obs['msg'] = str(e)[:200]
         return p
